@@ -788,6 +788,7 @@ def calculate_control_matrix_from_scratch(
     calculate_control_matrix_periodic: Control matrix for periodic system.
     """
     d = eigvecs.shape[-1]
+    omega = np.asarray(omega)
 
     if t is None:
         t = np.concatenate(([0], np.asarray(dt).cumsum()))
